@@ -19,6 +19,8 @@ import (
 )
 
 var names = []string{"a", "b", "a.b", "-x", "sp ace", "é", "node_modules", "ab", "f", "g", "..data", "...", ".h"}
+var rawPool = []string{"*.b", "/a", "a/b", "**/f", "a/**", "!a.b", "[ab]", `sp\ ace`, "#a", "  ", `\!x`, "a/", "*", "?", "ab*", ".h", "..data", "é",
+	"/sp ace", "**/ab/", "!*/", "g ", "node_modules/", "/**/g", "a*/", "-x", "!/a", "b/*", "*/", "!f", "a.?", "/*", "!.h"}
 var rxPool = []string{`^a$`, `b`, `node_modules`, `^(a|b)/`, `\.b$`, `^-x`, `^\.$`, `é`, `^a/ab$`}
 var glPool = []string{`a`, `*/b`, `**/node_modules`, `a*`, `{a,b}`, `sp ace`, `**/ab`, `.`, `a/*`}
 
@@ -49,7 +51,13 @@ func (g *gen) tree(maxDepth, maxNodes int) *wc.Node {
 		}
 		if g.r.Intn(3) == 0 && cnt < maxNodes {
 			n.HasGi = true
-			for j := g.r.Intn(3); j > 0; j-- {
+			raw := g.r.Intn(3) == 0
+			if raw { // full gitignore syntax: not interpreted by the model, answered from the real matcher's table
+				for j := 1 + g.r.Intn(3); j > 0; j-- {
+					n.Gi = append(n.Gi, wc.Pat{Name: rawPool[g.r.Intn(len(rawPool))], Raw: true})
+				}
+			}
+			for j := g.r.Intn(3); j > 0 && !raw; j-- {
 				nm := names[g.r.Intn(len(names))]
 				if p == "." && g.r.Intn(40) == 0 {
 					nm = "." // the one pattern a root .gitignore must not carry (GiOK): exercised, excluded from the oracle
